@@ -2102,7 +2102,7 @@ class RibCSFamily:
     FAMILY = "ribcs"
     # scenarios whose interleavings are few enough to be replayed one by one at the quick tier
     SMALL = (1, 2, 4, 5, 6, 8, 9, 12, 13)
-    LARGE = (3, 7, 10, 11, 14)
+    LARGE = (3, 7, 10, 11, 14, 15)
 
     def __init__(self, prop):
         self.prop = prop
@@ -2116,7 +2116,7 @@ class RibCSFamily:
         run = require_ok(ctx.tlc("GribiRIBCS_MC", None, name="mc-ribcs-serial", workers=vlib.NCPU, cfg_text=ribcs_cfg("AllScns", Serial=True), timeout=3000, heap="16g"),
                          "model checking GribiRIBCS_MC (Serial)")
         states, trans = run.distinct, run.generated
-        mcs.append({"module": "GribiRIBCS_MC", "constants": {"Scns": "AllScns (14 + 144 pairs)", "Serial": True}, "invariant": "QuiescentConsistent holds",
+        mcs.append({"module": "GribiRIBCS_MC", "constants": {"Scns": "AllScns (15 + 144 pairs)", "Serial": True}, "invariant": "QuiescentConsistent holds",
                     "distinct_states": run.distinct, "generated": run.generated, "secs": round(run.secs, 1)})
         # ... and at the code's grain of atomicity TLC finds the interleavings that break them (the open findings)
         run = ctx.tlc("GribiRIBCS_MC", None, name="mc-ribcs-conc", workers=vlib.NCPU, cfg_text=ribcs_cfg(self.SMALL, Serial=False), timeout=3000, heap="16g")
@@ -2131,7 +2131,7 @@ class RibCSFamily:
                          "exhaustive schedule emission (GribiRIBCS_MC)")
         walks += run.emitted()
         nexh = len(walks)
-        for i, (scns, num) in enumerate([(self.LARGE, 600 if quick else 15000), ("PairScns", 1500 if quick else 60000)]):
+        for i, (scns, num) in enumerate([(self.LARGE, 800 if quick else 15000), ("PairScns", 1500 if quick else 60000)]):
             run = require_ok(ctx.tlc("GribiRIBCS_MC", None, name="sim-ribcs", simulate=num, depth=100, seed=ctx.seed * 100 + i,
                                      cfg_text=ribcs_cfg(scns, EmitOn=True, inv=False), timeout=3000), "schedule simulation (GribiRIBCS_MC)")
             walks += run.emitted()
@@ -2473,7 +2473,7 @@ class RibHammerFamily:
     def run(self, ctx):
         res = Result()
         quick = ctx.tier == "quick"
-        cfg = ribcs_cfg(RibCSFamily.SMALL + (11, 14), Serial=False).replace("INVARIANTS QuiescentConsistent", "INVARIANTS Accounted")
+        cfg = ribcs_cfg(RibCSFamily.SMALL + (11, 14, 15), Serial=False).replace("INVARIANTS QuiescentConsistent", "INVARIANTS Accounted")
         mc = require_ok(ctx.tlc("GribiRIBCS_MC", None, name="mc-ribcs-accounted", workers=vlib.NCPU, cfg_text=cfg, timeout=3000, heap="16g"),
                         "model checking GribiRIBCS_MC (Accounted at the code's grain)")
         trace = os.path.join(ctx.work, "hammer.ndjson")
